@@ -34,6 +34,7 @@ func init() {
 			{ID: "C18-R13", Title: "Run resumes at the saved ip only for code that is still loaded (shared with C07)", Floor: 1, Run: savedIPBelongsToLoadedCode},
 			{ID: "C18-R14", Title: "the stack pointer is advanced only after the slot was written (it always indexes the array)", Floor: 1, Run: spStaysInRange},
 			{ID: "C18-R15", Title: "a failure kept in the compiler is cleared before compiling", Floor: 1, Run: stickyFailureClearedBeforeCompiling},
+			{ID: "C18-R16", Title: "clones share the code wrappers by pointer", Floor: 1, Run: clonesShareCodeWrappers},
 		},
 	})
 }
